@@ -42,12 +42,14 @@ pub enum Dev {
     SdAddEntry(usize, Value),     // non-string entry: 5 / null / {} / [] / true
     SdReplace(usize, Value),      // _sd is "str" / {} / null / [] / 5
     SdRefsArrayDisclosure(usize), // a 2-element disclosure referenced from _sd
+    SdEntrySpelling(usize, u8),   // first entry respelled: 0 "=" appended, 1 standard base64 alphabet, 2 trailing space, 3 leading space, 4 "==" appended, 5 percent-encoded
     // ---- placeholder k
     PhExtraMember(usize),
     PhDigest(usize, Value),        // non-string digest
     PhRefsObjectDisclosure(usize), // a 3-element disclosure referenced from ...
     PhDup(usize),                  // the same placeholder twice in its array
     PhUnmatched(usize),            // an extra unmatched placeholder (decoy element, well-formed)
+    PhDigestSpelling(usize, u8),   // the placeholder's digest respelled (same modes as SdEntrySpelling)
     PhAsMember,                    // {"...": d} as a plain member value at the root
     // ---- _sd_alg
     AlgTop(Option<Value>),    // None = absent
@@ -63,6 +65,17 @@ pub enum Dev {
     // ---- list-level
     PresentTwice(usize),
     Unreferenced,             // an extra disclosure nobody references
+}
+
+pub fn respell(d: &str, mode: u8) -> String {
+    match mode {
+        0 => format!("{d}="),
+        1 => d.replace('-', "+").replace('_', "/"),
+        2 => format!("{d} "),
+        3 => format!(" {d}"),
+        4 => format!("{d}=="),
+        _ => d.replace('-', "%2D").replace('_', "%5F"),
+    }
 }
 
 pub struct Built {
@@ -170,6 +183,9 @@ impl<'a> B<'a> {
                                     ph.insert("...".into(), json!(digest(&s)));
                                 }
                                 Dev::PhDup(i) if *i == k => dup = true,
+                                Dev::PhDigestSpelling(i, mode) if *i == k => {
+                                    ph.insert("...".into(), json!(respell(&dg, *mode)));
+                                }
                                 Dev::PhUnmatched(i) if *i == k => unmatched = true,
                                 _ => {}
                             }
@@ -230,6 +246,11 @@ impl<'a> B<'a> {
                     }
                     Dev::SdUnmatchedOnce(i) if *i == k => sd.push(json!(digest(&format!("decoy-{k}")))),
                     Dev::SdAddEntry(i, v) if *i == k => sd.push(v.clone()),
+                    Dev::SdEntrySpelling(i, mode) if *i == k => {
+                        if let Some(d0) = sd[0].as_str().map(str::to_string) {
+                            sd[0] = json!(respell(&d0, *mode));
+                        }
+                    }
                     Dev::SdRefsArrayDisclosure(i) if *i == k => {
                         let salt = self.salt();
                         let s = b64e(serde_json::to_string(&json!([salt, "two-element"])).unwrap().as_bytes());
@@ -342,6 +363,9 @@ pub fn deviations(b: &Built) -> Vec<Dev> {
             v.push(Dev::SdReplace(k, x));
         }
         v.push(Dev::SdRefsArrayDisclosure(k));
+        for mode in 0..6u8 {
+            v.push(Dev::SdEntrySpelling(k, mode));
+        }
     }
     for k in 0..b.n_ph {
         v.push(Dev::PhExtraMember(k));
@@ -351,6 +375,9 @@ pub fn deviations(b: &Built) -> Vec<Dev> {
         v.push(Dev::PhRefsObjectDisclosure(k));
         v.push(Dev::PhDup(k));
         v.push(Dev::PhUnmatched(k));
+        for mode in 0..6u8 {
+            v.push(Dev::PhDigestSpelling(k, mode));
+        }
     }
     v.push(Dev::PhAsMember);
     for x in [None, Some(json!("sha-256")), Some(json!("sha-512")), Some(json!("SHA-256")), Some(json!("")), Some(json!(5)), Some(Value::Null), Some(json!(["sha-256"]))] {
